@@ -31,6 +31,10 @@ namespace {
     int v = 0;
   };
   struct Derived9 : Base9 {};
+  // a C++ value type whose registered == re-enters the engine: switch/case calls == through a dispatch that opens no call frame
+  struct HE9 {
+    int mode = 0, site = 0;
+  };
 
   constexpr int N_KINDS = 10;
   const char *kind_names[N_KINDS] = {"runtime_error", "out_of_range", "logic_error", "eval_error", "Boxed_Value", "user_class", "int",
@@ -56,14 +60,33 @@ namespace {
     Rng &rng;
     int next_site = 1, next_flag = 1, next_name = 0, next_decl = 1;
     int n_funcs = 0, n_classes = 0;
+    int sub_engines_left = 0; // calls of sub_engine() this program may still contain (each costs an engine construction)
+    bool has_pre_engine = false;
     std::vector<std::string> *decl_sink = nullptr; // names a top-level helper statement declares at top level
     explicit Gen(Rng &r) : rng(r) {}
     std::string cb() { return "cb(" + std::to_string(next_site++) + ")"; }
     std::string name(const char *p) { return std::string(p) + std::to_string(next_name++); }
 
     std::string expr(int d) {
-      const int k = int(rng.below(d <= 0 ? 3 : 16));
+      const int k = int(rng.below(d <= 0 ? 3 : 19));
       switch (k) {
+      case 16:
+      case 17: {
+        // the host re-enters the engine from inside a registered function: chai.eval() of a small script that
+        // succeeds, throws, does not parse or fails deep inside a lambda; the host swallows the failure (modes
+        // 0-3) or lets it travel on (mode 4).  eval must give back the shape it was ENTERED with, whatever that was.
+        const int mode = int(rng.below(5));
+        const std::string site = std::to_string(next_site++);
+        return "host_eval(" + std::to_string(mode) + ", " + site + ")";
+      }
+      case 18:
+        // a second engine is built, used and destroyed on this thread while the evaluation is in progress
+        // (mode 0), or an engine built on this thread BEFORE the evaluating one is destroyed now (mode 1)
+        if (sub_engines_left > 0) {
+          --sub_engines_left;
+          return "sub_engine(" + std::to_string(has_pre_engine && rng.chance(500) ? 1 : 0) + ")";
+        }
+        return cb();
       case 0:
       case 1:
         return cb();
@@ -119,7 +142,7 @@ namespace {
     }
 
     std::string stmt(int d, bool top = false) {
-      const int k = int(rng.below(d <= 0 ? 3 : 19));
+      const int k = int(rng.below(d <= 0 ? 3 : 21));
       switch (k) {
       case 0:
         return expr(d) + ";";
@@ -226,6 +249,19 @@ namespace {
         default: return "dup_params(1, " + cb() + ");";
         }
       }
+      case 19:
+      case 20: {
+        // switch over a C++ value whose == re-enters the engine (host_eval modes): the comparison is dispatched by the
+        // switch statement itself, without a call frame, so at top level it runs with call depth 0 and scopes open
+        const int mode = int(rng.below(5));
+        const std::string site = std::to_string(next_site++);
+        const std::string sw = "switch (make_he(" + std::to_string(mode) + ", " + site + ")) { case (make_he(0, 0)) { " + stmts(d - 1, 2) + "} default { " + cb() + "; } }";
+        switch (rng.below(3)) {
+        case 0: return "{ var " + name("pad") + " = " + cb() + "; " + sw + " }";
+        case 1: return "for (var " + name("i") + " = 0; " + "true; ) { var " + name("pad") + " = 0; " + sw + " break; }";
+        default: return sw;
+        }
+      }
       case 14:
         return ifdecl(d);
       case 15:
@@ -257,6 +293,10 @@ namespace {
     J &defs = p["defs"];
     defs = J::array();
     const int depth = int(rng.range(1, thorough ? 4 : 3));
+    if (rng.chance(120)) {
+      g.sub_engines_left = int(rng.range(1, 2));
+      g.has_pre_engine = rng.chance(500);
+    }
     defs.push(J("def rec(n) { if (n <= 0) { return " + g.cb() + " }; return rec(n - 1) + 1 }"));
     defs.push(J("def return_early(a) { if (a > 0) { return a }; " + g.cb() + "; return 0 }"));
     defs.push(J("def dup_params(a, a) { return a }"));
@@ -297,6 +337,7 @@ namespace {
     }
     // evaluation in 1..3 chunks (sequence of eval calls on the same engine)
     p["chunks"] = J(int(rng.range(1, 3)));
+    p["pre_engine"] = J(g.has_pre_engine);
     return p;
   }
 
@@ -326,9 +367,73 @@ namespace {
                           "class ZZ { var a; def ZZ() { this.a = 5 }; def m(x) { this.a + x } }; zz_r + ZZ().m(zz_a)";
 
   void run_once(const J &plan, const Fault &f, Exec &x) {
+    // an engine built (and used) on this thread before the evaluating one; a callback may destroy it mid-evaluation
+    std::unique_ptr<Engine> pre;
+    if (plan.has("pre_engine") && plan.at("pre_engine").truthy()) {
+      pre = make_engine();
+      pre->eval("global pre_a = 1; def pre_f(x) { x + pre_a }; pre_f(1)");
+    }
     auto chai = make_engine();
     Engine &e = *chai;
     std::map<int, int> cb_occ, flag_occ;
+    auto reenter = [&](int mode, int site) -> int {
+            // re-entrant evaluation started by the host from inside a callback
+            const std::string s = std::to_string(site);
+            const char *inner[5] = {"cb(%) + 1", "{ var hz = cb(%); throw(hz) }", "cb(%) + ", "fun(a) { { var q = a; no_such_function_zz(cb(%) + q) } }(1)", "cb(%) + 1"};
+            std::string script = inner[mode % 5];
+            script.replace(script.find('%'), 1, s);
+            // inside a running call the saved-parameter list of the current frame only ever grows (it is emptied when
+            // the OUTERMOST call ends), so for a re-entrant eval it is compared as "did not shrink", everything else exactly
+            auto shape_wo = [&](size_t &back) {
+              auto sh = e.verif_stack_shape();
+              back = size_t(sh.call_params_back);
+              return "stacks=" + std::to_string(sh.stacks) + " scopes=" + std::to_string(sh.scopes_in_top_stack) + " call_params=" + std::to_string(sh.call_params)
+                  + " call_depth=" + std::to_string(sh.call_depth) + " saves_enabled=" + std::to_string(int(sh.saves_enabled));
+            };
+            size_t back_before = 0;
+            const std::string before = shape_wo(back_before);
+            auto check = [&](const char *how) {
+              size_t back_after = 0;
+              std::string after = shape_wo(back_after);
+              if (back_after < back_before) {
+                after += " call_params_back shrank " + std::to_string(back_before) + "->" + std::to_string(back_after);
+              }
+              if (after != before && x.violation_rule.empty()) {
+                x.violation_rule = "stack-shape-not-restored";
+                x.violation_detail = std::string("re-entrant eval (host callback, mode ") + std::to_string(mode) + ") " + how + "; shape on entry: " + before + "; afterwards: " + after;
+              }
+            };
+            int result = -1;
+            try {
+              result = e.eval<int>(script);
+              check("returned");
+            } catch (...) {
+              check("threw");
+              if (mode % 5 == 4) {
+                throw;
+              }
+            }
+            return result;
+          };
+    e.add(fun([reenter](int mode, int site) -> int { return reenter(mode, site); }), "host_eval");
+    e.add(user_type<HE9>(), "HE9");
+    e.add(fun([](int mode, int site) { return HE9{mode, site}; }), "make_he");
+    e.add(fun([reenter](const HE9 &a, const HE9 &) -> bool {
+            reenter(a.mode, a.site);
+            return true;
+          }),
+          "==");
+    e.add(fun([&](int mode) -> int {
+            if (mode == 1) {
+              if (pre) {
+                pre.reset();
+              }
+              return 3;
+            }
+            auto sub = make_engine();
+            return sub->eval<int>("global a = 1; def sf(x) { var t = x + a; t }; sf(2)");
+          }),
+          "sub_engine");
     e.add(fun([&](int k) -> int {
             sim_yield(7, nullptr);
             const int occ = ++cb_occ[k];
